@@ -61,6 +61,7 @@ class Ctx:
 
     def add_violation(self, v):
         """v: dict with at least prop, why; plus signature fields and replay data."""
+        self.__dict__.setdefault("allviol", []).append(v)
         if v["prop"] == self.prop:
             self.viol.append(v)
         else:
@@ -105,7 +106,7 @@ class Ctx:
                 if n >= 10:
                     break
         if os.environ.get("VERIF_DUMP"):
-            json.dump(self.viol, open(os.environ["VERIF_DUMP"], "w"), default=str)
+            json.dump(self.__dict__.get("allviol", []), open(os.environ["VERIF_DUMP"], "w"), default=str)
         self.write_evidence(wall, len(unlisted), hit)
         for k, n in sorted(self.other.items()):
             vlib.log("note: %d violation(s) of %s seen by this run (reported by that property's check)" % (n, k))
@@ -358,8 +359,28 @@ def family_a(ctx, focus):
             handle_model_counterexample(ctx, r, bgen.kind_of(rq, rs))
         elif not r["ok"] and not r["timed_out"]:
             raise vlib.Infra("TLC failed on InprocStream:\n" + r["stdout"][-3000:])
+    ucon = {"NH": 3 if q else 4, "MaxHdr": 2, "MaxTrl": 1, "Outcomes": '{"resp", "nilresp", "err"}',
+            "CancelKinds": '{"cancel"}', "FixClosed": "TRUE", "FixDecode": "TRUE", "Known <-": "KnownOpen"}
+    r = ctx.tlc("MCInprocUnary", ucon, invariants=["TypeOK", "Refines", "C05_NoStuck", "C06_NoReadAfterReturn"],
+                name="L1-inproc-unary", timeout=300)
+    if r["violated"]:
+        acts = bgen.parse_actions(r["stdout"])
+        v = run_scripts(ctx, [bgen.unary_script(acts, "cex-unary-%d" % i, seed + i) for i in range(60)], "cex-unary", shards=1)
+        if not v:
+            raise vlib.Infra("TLC counterexample on InprocUnary is not reproducible on the real code: the model is wrong\n"
+                             + r["stdout"][-1500:])
+    elif not r["ok"]:
+        raise vlib.Infra("TLC failed on InprocUnary:\n" + r["stdout"][-3000:])
     # 2. behaviours generated from the model, replayed into the real code
     scripts = []
+    ucon2 = dict(ucon, NH=4, CancelKinds='{"cancel", "deadline"}')
+    nun = focus.get("nunary_q" if q else "nunary_t", 150 if q else 1500)
+    for j, b in enumerate(bgen.simulate(ctx.scratch, "MCInprocUnary", ucon2, nun, 40, seed * 11 + 3, "iu", files=mc_files())):
+        for rep in range(3 if q else 8):
+            scripts.append(bgen.unary_script(b, "sim-unary-%d-%d" % (j, rep), seed * 100003 + j))
+        scripts.append(bgen.unary_script(b, "sim-unary-httpmem-%d" % j, seed * 100003 + j, tr="httpmem", gated=False))
+    ctx.rules.append("behaviours of the L1 model InprocUnary replayed through the verifPoint gates of Invoke "
+                     "(each repeated, since Go's select picks among ready cases at random)")
     nsim = focus.get("nsim_q" if q else "nsim_t", 150 if q else 2500)
     for i, (rq, rs) in enumerate(STREAM_KINDS):
         consts = inproc_stream_consts(rq, rs, 2, 3, 4, statuses="{0, 1, 2}", kinds='{"cancel", "deadline"}')
@@ -367,6 +388,9 @@ def family_a(ctx, focus):
         kind = bgen.kind_of(rq, rs)
         for j, b in enumerate(bs):
             scripts.append(bgen.stream_script(b, kind, "inproc", "sim-inproc-%s-%d" % (kind, j), seed * 100003 + j))
+            if j % 3 == 0:
+                scripts.append(bgen.stream_script(b, kind, "inproc", "sim-inproc-gated-%s-%d" % (kind, j), seed * 100003 + j,
+                                                  gated=True))
             if half_duplex_ok(b):
                 scripts.append(bgen.stream_script(b, kind, "httpmem", "sim-httpmem-%s-%d" % (kind, j), seed * 100003 + j))
     ctx.rules.append("behaviours of the L1 model InprocStream (TLC -simulate) reduced to Start/Cancel steps and replayed "
